@@ -27,7 +27,7 @@ RULE = ("Hypothesis draws a schema biased to INVERSE attributes, a conforming po
         ">= 1 decoy (an instance that mentions x through another attribute, or whose type does not have the inverted "
         "attribute) AND >= 1 real referrer. Distinct by hash(schema, population, x).")
 
-SCHEMA_CFG = {"p_inverse": 75, "max_inverse": 3, "min_ent": 3, "max_ent": 9, "p_redecl": 10,
+SCHEMA_CFG = {"redundant_supers": False, "p_inverse": 75, "max_inverse": 3, "min_ent": 3, "max_ent": 9, "p_redecl": 10,
               "attr_weights": {"simple": 20, "defined": 5, "enum": 5, "select": 5, "entity": 40, "agg": 25}}
 
 
